@@ -499,9 +499,10 @@ func c23Exec(c *Case) {
 				}
 			case err != nil:
 				ret = "exhausted?"
-				for i := range errs {
+				for i := range errs { // first match: two authenticators may return the same singleton (context.DeadlineExceeded)
 					if errs[i] != nil && errs[i] == err {
 						ret = "err:" + strconv.Itoa(i)
+						break
 					}
 				}
 				if ret == "exhausted?" {
